@@ -3,7 +3,6 @@ package main
 // C17.R2–R4: colour symmetry where the two colours are spelled out side by side.
 
 import (
-	"sync"
 	"fmt"
 	"go/ast"
 	"go/constant"
@@ -12,6 +11,7 @@ import (
 	"math/bits"
 	"sort"
 	"strings"
+	"sync"
 
 	"golang.org/x/tools/go/packages"
 	"golang.org/x/tools/go/ssa"
@@ -176,7 +176,7 @@ func isUntypedBig(tv types.TypeAndValue) bool { return false }
 
 // evalBBExpr evaluates a bitboard-typed expression built from constants, bit operators and
 // BitBoardFromSquares over constant squares.
-var bbVarInits sync.Map // types.Object (package-level var) -> ast.Expr initialiser
+var bbVarInits sync.Map  // types.Object (package-level var) -> ast.Expr initialiser
 var mirrorFuncs sync.Map // *types.Func -> *types.Func: functions whose bodies are mirror images of each other
 
 // registerMirrorFuncs pairs top-level functions of identical signature whose bodies render, statement by
@@ -1439,10 +1439,10 @@ func c17R5(c *Ctx, p *Prog) {
 //
 // Two more ways in which orientation leaks into colour-generic evaluation code without any colour
 // being spelled out:
-//   * "all squares below sq" masks ((1<<sq)-1, -(1<<sq)) and </> comparisons between two squares:
+//   - "all squares below sq" masks ((1<<sq)-1, -(1<<sq)) and </> comparisons between two squares:
 //     mirroring the board reverses the rank order, so "the first of two pieces" is a different piece
 //     in the mirror image;
-//   * rank or file taken from the DIFFERENCE of two square indexes ((a-b)>>3, (a-b)/8, (a-b)&7):
+//   - rank or file taken from the DIFFERENCE of two square indexes ((a-b)>>3, (a-b)/8, (a-b)&7):
 //     the borrow from the file part makes it differ from rank(a)-rank(b) exactly when the lower-rank
 //     square is on the higher file, a relation the mirror reverses.
 func c17R6(c *Ctx, p *Prog) {
